@@ -452,7 +452,9 @@ impl PartitionSampler {
         let total_stake: Stake = validators.iter().map(|v| v.stake).sum();
         let stake_per_bin = total_stake.div_ceil(num_bins as u64);
         let mut validators_random = validators;
-        validators_random.shuffle(&mut rand::rng());
+        // NOTE: All nodes have to agree on the partition, as it decides the relays in Rotor.
+        // So the permutation must be a function of the validator set only, not of local entropy.
+        validators_random.shuffle(&mut StdRng::seed_from_u64(0));
 
         // partition into bins
         let mut current_bin = 0;
